@@ -25,7 +25,7 @@ func TestUpgrade(t *testing.T) {
 		if h.Thorough() {
 			n = 2500
 		}
-		modes := []string{"normal", "normal", "normal", "refused", "stalled", "cutHandshake", "cutProbe"}
+		modes := []string{"normal", "normal", "slowWS", "refused", "stalled", "cutHandshake", "cutProbe", "normal", "slowWS"}
 		for i := 0; i < n; i++ {
 			upgradeScenario(t, h, modes[i%len(modes)], i)
 		}
@@ -94,8 +94,18 @@ func upgradeScenario(t *testing.T, h *H, mode string, idx int) {
 		ping, pingTO, upTO = 2*time.Second, 2*time.Second, time.Second
 		run = func(f func(t *testing.T)) { f(t) }
 	}
+	// slowWS: a slow uplink on the new transport only (a delay line, so nothing sleeps under a lock): the upgrade takes about three
+	// latencies and the server's first heartbeat falls due while the client has already stopped polling
+	wsLat := time.Duration(0)
+	if mode == "slowWS" {
+		ping = time.Second
+		wsLat = time.Duration(340+(idx*37)%150) * time.Millisecond
+		pingTO = 2*wsLat + time.Second
+		upTO = 10 * time.Second
+	}
 	run(func(t *testing.T) {
 		nw := newMemNet()
+		nw.wsLatency = wsLat
 		var srvSock eio.ServerSocket
 		sockReady := make(chan struct{})
 		srv := eio.NewServer(func(s eio.ServerSocket) *eio.Callbacks {
@@ -222,6 +232,8 @@ func upgradeScenario(t *testing.T, h *H, mode string, idx int) {
 		time.Sleep(time.Duration(200+h.R.Intn(400)) * time.Millisecond)
 		if realTime {
 			time.Sleep(3 * time.Second) // past the upgrade timeout and past the slowest POST
+		} else if mode == "slowWS" {
+			time.Sleep(4 * time.Second) // the upgrade completes, several heartbeats pass
 		} else if mode != "normal" {
 			time.Sleep(3 * time.Second) // past the upgrade timeout
 		}
@@ -281,13 +293,13 @@ func upgradeScenario(t *testing.T, h *H, mode string, idx int) {
 	if cliClosed != "" && cliClosed != string(eio.ReasonForcedClose) {
 		h.Violation("C07", "the connection does not survive an upgrade attempt", desc, fmt.Sprintf("client closed with %q, errors %v", cliClosed, cliErrors))
 	}
-	if mode == "normal" && (!upgraded || srvTransport != "websocket" || cliTransport != "websocket") {
+	if (mode == "normal" || mode == "slowWS") && (!upgraded || srvTransport != "websocket" || cliTransport != "websocket") {
 		h.Violation("C07", "an unobstructed upgrade does not complete", desc, fmt.Sprintf("server on %s, client on %s", srvTransport, cliTransport))
 	}
 	if mode == "slowPost" && (srvTransport != cliTransport || upgraded != (cliTransport == "websocket")) {
 		h.Violation("C07", "after an upgrade attempt the two sides are not on the same transport", desc, fmt.Sprintf("server on %s, client on %s, UpgradeDone reported=%v; client closed=%q errors=%v", srvTransport, cliTransport, upgraded, cliClosed, cliErrors))
 	}
-	if mode != "normal" && mode != "cutProbe" && mode != "slowPost" && (upgraded || srvTransport != "polling" || cliTransport != "polling") {
+	if mode != "normal" && mode != "slowWS" && mode != "cutProbe" && mode != "slowPost" && (upgraded || srvTransport != "polling" || cliTransport != "polling") {
 		h.Violation("C07", "a failed upgrade attempt does not leave the connection on its original transport", desc, fmt.Sprintf("server on %s, client on %s", srvTransport, cliTransport))
 	}
 	// model line (multiset of deliveries and final transports for this amount of traffic around the swap)
